@@ -46,6 +46,7 @@ class Ctx:
         self.inputs = {}  # name -> z3 const (registered per path)
         self.bounds = {}  # name -> declared domain constraints
         self.quotients = {}  # quotient symbol -> (numerator, denominator)
+        self.quot_memo = []
         self.light = []  # path condition without cut facts (bounds, assumptions, decisions): used to sample path models
         self.stats = dict(
             paths=0, aborted=0, forks=0, forced=0, solver_calls=0, solver_s=0.0,
@@ -197,6 +198,8 @@ def explore(body, *, timeout_ms=60000, seed=0, max_paths=10**6, budget_s=None,
             c.free = 0
             c.inputs = {}
             c.light = []
+            c.quot_memo = []
+            c.quotients = {}
             try:
                 body()
                 c.stats['paths'] += 1
@@ -406,7 +409,6 @@ INDEX_RANGE = (-16, 255)
 class SNum(Sym):
     """Symbolic number: mathematical integer (z3 Int) or real (z3 Real)."""
     __slots__ = ()
-    __array_priority__ = 1000
 
     @property
     def is_int(self):
@@ -596,7 +598,12 @@ def _divide(a, b):
     if z3.is_rational_value(b) or z3.is_int_value(b):
         return mk(a / b)
     c = ctx()
+    a = z3.simplify(a)
+    for (a0, b0, q0) in c.quot_memo:  # the same division yields the same quotient symbol
+        if a0.eq(a) and b0.eq(b):
+            return SNum(q0)
     q = z3.FreshReal('quot')
+    c.quot_memo.append((a, b, q))
     fact = z3.Implies(b != 0, q * b == a)
     c.solver.add(fact)
     c.bounds[q.decl().name()] = [fact]
@@ -1065,7 +1072,6 @@ class SRoot(Sym):
     ``**2`` stay polynomial (no sqrt in the solver); any other arithmetic materialises a
     fresh real s with s >= 0, s*s == q."""
     __slots__ = ('q', '_s')
-    __array_priority__ = 1000
 
     def __init__(self, q):
         self.q = q
